@@ -125,6 +125,10 @@ def expand(unit, repo=None):
                         if not mm: raise ExtractError('bad directive: ' + l)
                         cur = ('closure', 0 if mm.group(1) == '*' else -1 if mm.group(1) == '?' else int(mm.group(1)), mm.group(2), mm.group(3), mm.group(4))
                     elif cmd == 'deimpl': ann['deimpl'] = True
+                    elif cmd == 'sigsubst':
+                        mm = re.match(r'`(.*)`\s*=>\s*`(.*)`\s*$', arg)
+                        if not mm: raise ExtractError('bad directive: ' + l)
+                        ann.setdefault('sigsubst', []).append((mm.group(1), mm.group(2)))
                     elif cmd == 'nested': cur = ('nested', arg.split()[0], arg.split()[1])
                     elif cmd in ('loopentry', 'loopexit'): cur = (cmd, int(arg.split()[0]))
                     elif cmd == 'loop':
